@@ -259,6 +259,40 @@ def m_file_open(engine, ctx, args, callee, frame):
     return future(callee, lambda: open_file(ctx, name, o))
 
 
+@model(r"^(sos_vfs|tokio::fs)::read::<")
+def m_fs_read(engine, ctx, args, callee, frame):
+    """read the whole file into a Vec<u8>"""
+    name = path_name(args[0])
+
+    def run():
+        d = vfs_of(ctx).files.get(name)
+        if d is None:
+            return err(io_error("NotFound", name))
+        return ok(M.Bytes(d.arr, Int(0, 64), d.length))
+    return future(callee, run)
+
+
+@model(r"^(sos_vfs|tokio::fs)::write::<")
+def m_fs_write(engine, ctx, args, callee, frame):
+    """create or truncate, then write the whole buffer (two file operations: a crash between them leaves an
+    empty file)"""
+    name = path_name(args[0])
+    buf = M.as_bytes(engine, args[1])
+
+    def run():
+        o = OpenOpts()
+        o.write = True
+        o.create = True
+        o.truncate = True
+        r = open_file(ctx, name, o)
+        if r.variant != "Ok":
+            return r
+        h = r.fields[0].v
+        h.write_all(ctx, buf)
+        return ok(unit())
+    return future(callee, run)
+
+
 class MetaV:
     def __init__(self, length):
         self.length = length
@@ -277,6 +311,12 @@ def m_metadata(engine, ctx, args, callee, frame):
             return err(io_error("NotFound", name))
         return ok(MetaV(d.length))
     return future(callee, run)
+
+
+@model(r"^(sos_vfs|tokio::fs)::File::metadata$")
+def m_file_metadata(engine, ctx, args, callee, frame):
+    h = deref(args[0])
+    return future(callee, lambda: ok(MetaV(h.data.length)))
 
 
 @model(r"^(std::fs::)?Metadata::len$")
